@@ -244,12 +244,13 @@ impl<'a> DocGen<'a> {
     }
 
     pub fn string_value(&mut self) -> String {
-        // (the last two: a quote, in either notation, can stand at the very beginning or end of a value)
-        let pool: [&str; 18] = ["", "text", "a b", "q\\\"q", "b\\\\s", "t\\tn\\n", "it''s", "dq\"\"x", "é", "日本", "😀", "/* no */", "// no", "/begin X", "0x10", "\\'", "\\\"", "\"\""];
+        // (a quote, in either notation, can stand at the very beginning or end of a value; a literal backslash can stand in
+        // front of a letter that would make an escape sequence with it)
+        let pool: [&str; 20] = ["", "text", "a b", "q\\\"q", "b\\\\s", "t\\tn\\n", "it''s", "dq\"\"x", "é", "日本", "😀", "/* no */", "// no", "/begin X", "0x10", "\\'", "\\\"", "\"\"", "\\\\n", "\\\\t\\\\"];
         let n = self.rng.below(3);
         let mut s = String::new();
         for _ in 0..=n {
-            let p = pool[self.rng.below(if self.opts.unicode { 18 } else { 8 })];
+            let p = pool[self.rng.below(if self.opts.unicode { 20 } else { 8 })];
             s.push_str(p);
         }
         format!("\"{s}\"")
